@@ -564,6 +564,30 @@ theorem fit_row_unfold (fixed : Bool) (m : M) (trans : List (Tr ℝ)) (names : L
       some ((if fixed then scatterAcc else scatterOp) (· - ·) (g.map fun _ => (0.0:ℝ))
         ((pGlobalIndices trans names).filterMap id) sens)) := rfl
 
+/-- the same for a model WITH inversions (`InverseModel`, `efjc_force`, `twlc_force` inside a fit): the row
+    is built from `M.jac` at the point, the data set's local parameters and the values the numerical
+    inversions returned AT THAT POINT — nothing of any other data set or any earlier evaluation enters
+    (the rule of `inverse_jacobian_rule` is applied point by point). -/
+theorem fit_row_sols_unfold (fixed : Bool) (m : M) (trans : List (Tr ℝ)) (names : List String) (g : List ℝ) (x : ℝ)
+    (sols : List ℝ) :
+    jacRowS fixed m trans names g x sols = (do
+      let pl ← getLocalParams trans names g
+      let j ← m.jac x pl sols
+      let sens ← localizeSensitivities trans j
+      some ((if fixed then scatterAcc else scatterOp) (· - ·) (g.map fun _ => (0.0:ℝ))
+        ((pGlobalIndices trans names).filterMap id) sens)) := rfl
+
+/-- a data set that carries no inversion values (every model without an inversion) contributes exactly
+    the rows `jacRow` of its points, in order -/
+theorem fit_rows_without_inversion (fixed : Bool) (m : M) (names : List String) (g : List ℝ) (d : DataSet ℝ)
+    (h : d.sols = []) :
+    d.points.map (fun xs => jacRowS fixed m d.trans names g xs.1 xs.2)
+      = d.xs.map (fun x => jacRow fixed m d.trans names g x) := by
+  unfold DataSet.points
+  rw [h, withSols_nil, List.map_map]
+  rfl
+example : (⟨[1.0, 2.0], [], []⟩ : DataSet ℝ).sols = [] := rfl
+
 /-- two local parameters fed from ONE global: the derivative w.r.t. the global is the SUM of the
     two partial derivatives (so the accumulating update is the right one) -/
 theorem shared_parameter_chain_rule (f : ℝ → ℝ → ℝ) (f1 f2 g : ℝ)
